@@ -357,6 +357,11 @@ func (f *SimFile) Read(p []byte) (int, error) {
 		ev.Zero = true
 		return 0, nil
 	}
+	if len(p) == 0 {
+		// what (*os.File).Read does with an empty buffer, at any offset, end of file included
+		ev.Zero = true
+		return 0, nil
+	}
 	remaining := f.total() - f.off - f.filled
 	n := st.N
 	if n <= 0 || n > len(p) {
